@@ -67,6 +67,9 @@ def sig_of(m: dict) -> dict:
             back = any('\\' in leaf[2] for _, flat in val['blocks'] + val['proxies'] for leaf in flat)
             if back and clause in ('rt.value.blocks', 'rt.value.proxies', 'rt.second', 'sample.value.blocks', 'sample.second'):
                 cause = 'block_backslash'
+        elif fmt == 'smd' and val and clause in ('rt.second', 'sample.second') and len(val['bones']) >= 3 and not rec.get('err'):
+            # same mesh read back (no rt.value mismatch is raised for it), only the second file differs
+            cause = 'bone_numbering'
         elif fmt == 'smd' and val:
             multi = any(len(v[8]) > 1 for _, verts in val['tris'] for v in verts)
             if multi and clause == 'rt.read' and 'ParseError' in rec.get('err', ''):
